@@ -36,7 +36,7 @@ CLAIMED = {
          "no time/rand/env/goroutine/channel/select reachable from tx, block-hook, ante or genesis code; every map range there is order-insensitive (no store access at all in gas-metered context; key-derived writes and order-free result in block context); no package-level or keeper-reachable mutable state; only exact IEEE float operations",
          "determinism of dependencies, restart equivalence of the store"),
  "C08": ("must-pass facts in ProcessProposal/PrepareProposal closures + sibling obligation comparison (proposal check vs execution) + inter-procedural read/write effect sets of errgroup closures + call-graph who-may-write of begin blockers against the collections read by the proposal-time checks",
-         "ProcessProposal skeleton (1..16 txs, per-tx verification, first tx = single MsgNewEthBlock verified, none later, ACCEPT after the list); Prepare stops at the same cap; verifyEthBlockProposal and NewEthBlock agree on the structural checks (proposer, fee recipient, parent hash, number+1, 32-byte block hash, beacon root, system txs, requests) and createEthBlockProposal sources the same state; engine error/non-VALID rejects; no memory written by one errgroup closure is accessed by its sibling; every mempool tx entering the prepared proposal passes a size guard (including the block tx) against RequestPrepareProposal.MaxTxBytes; no begin-of-block code writes a collection that the proposal-time dequeue / head checks read (so the accepted proposal is finalised on the state it was built on)",
+         "ProcessProposal skeleton (1..16 txs, per-tx verification, first tx = single MsgNewEthBlock verified, none later, ACCEPT after the list); Prepare stops at the same cap; verifyEthBlockProposal and NewEthBlock agree on the structural checks (proposer, fee recipient, parent hash, number+1, 32-byte block hash, beacon root, system txs, requests) and createEthBlockProposal sources the same state; engine error/non-VALID rejects; no memory written by one errgroup closure is accessed by its sibling; every mempool tx entering the prepared proposal passes a size guard (including the block tx) against RequestPrepareProposal.MaxTxBytes; no begin-of-block code writes a collection that the proposal-time dequeue / head checks read (so the accepted proposal is finalised on the state it was built on); the cap constant is the 16 of the property",
          "that honest proposals are always accepted (clocks, engine behaviour), races inside the SDK/mempool"),
  "C09": ("who-may-write + must-pass facts dominating the head writes + value provenance of the engine call arguments + typed AST of the app config",
          "Block/BeaconRoot written only by NewEthBlock and genesis, after every structural guard (incl. a 32-byte block hash: the engine sees a cropped hash, the head records the raw bytes) and request processor; Finalized returns both engine errors, fails on INVALID from either call, sends the recorded head with safe = finalized = parent; goat EndBlock returns Finalized's error and the module is wired as end-blocker; engine RPC wrappers propagate errors",
@@ -60,10 +60,10 @@ CLAIMED = {
          "maturity = block time + exit delay exactly when status is Inactive/Tombstoned or the remainder falls below the threshold, else + unlock delay; the entry written is the stored entry for that instant extended by this unlock; exiting zeroes power, moves to Inactive, clears the locking index and never re-ranks; the sweep covers (-inf, block time], removes every visited key, appends every visited unlock once in order and stores the queue; no two read-modify-write sequences on one keeper map with different key expressions are interleaved (lost update); the end blocker evicts every member of the last set that is not re-elected, whatever its status (C13/R4)",
          "time arithmetic, delivery caps over histories"),
  "C16": ("must-pass proof facts before any write in NewVoter + voter-status typestate with queue pairing + relational guard on the remaining-member count + election path searches",
-         "a voter joins only after both proofs over the same registration sign doc bound to chain/epoch/proposer, with matching key hash and PENDING status; status transitions are the allowed ones and each boarding write is paired with one queue append; a removal is queued only if the remaining count stays >= 1; an election is skipped only within the period with an accepted proposer / no or unexpired timeout, and started only when the period elapsed or a configured timeout expired unaccepted; every election path increments the epoch once, stores the relayer, and replaces/swaps the proposer with a voter that leaves the voter list; applied queues are cleared and stored; a voter record is created only when its address is absent and after a branch on a lookup that receives the new vote key and reads the voter records, comparing records of every status (distinct members); the new record carries the height of its registration (NewVoter's proofs are bound to it); genesis import refuses a proposer that is also listed among the voters; wherever the module chooses between a voter's VoteKey field and its SHA-256, the raw field is taken only under status Pending and the hash only otherwise",
+         "a voter joins only after both proofs over the same registration sign doc bound to chain/epoch/proposer, with matching key hash and PENDING status; status transitions are the allowed ones and each boarding write is paired with one queue append; a removal is queued only if the remaining count stays >= 1; an election is skipped only within the period with an accepted proposer / no or unexpired timeout, and started only when the period elapsed or a configured timeout expired unaccepted; every election path increments the epoch once, stores the relayer, and replaces/swaps the proposer with a voter that leaves the voter list; applied queues are cleared and stored; a voter record is created only when its address is absent and after a branch on a lookup that receives the new vote key and reads the voter records, comparing records of every status (distinct members); the new record carries the height of its registration (NewVoter's proofs are bound to it); genesis import refuses a proposer that is also listed among the voters; wherever the module chooses between a voter's VoteKey field and its SHA-256, the raw field is taken only under status Pending and the hash only otherwise; a proposer that acts is marked accepted on every success exit of VerifyProposal / VerifyNonProposal",
          "election timing over block-time histories, randomness quality"),
  "C17": ("sibling recipe extraction (canonical SSA expressions of builder vs verifier) + literal/guard facts + key-type matrix facts",
-         "for each key type and version the address builder and the script verifier derive the witness program / data script by the same recipe over the same argument roles; verifier literals match the address kind; v1 is ECDSA-only on both sides and deposit verification does not delegate to a helper with a different key matrix; the query dispatches versions like verification; DecodeBtcAddress passes network, IsForNet, p2pk rejection and PayToAddrScript",
+         "for each key type and version the address builder and the script verifier derive the witness program / data script by the same recipe over the same argument roles; verifier literals match the address kind; v1 is ECDSA-only on both sides and deposit verification does not delegate to a helper with a different key matrix; the query dispatches versions like verification; DecodeBtcAddress passes network, IsForNet, p2pk rejection and PayToAddrScript; the relayer's own address check (change / consolidation outputs) tests length, version opcode and push opcode per key type",
          "equivalence with btcd on all strings (library behaviour)"),
  "C18": ("coverage analysis of keeper collections and GenesisState fields over Init/ExportGenesis (types + store call sites) + guard facts on derived-index rebuilds + abstract evaluation (known shapes, integer intervals) of import-side validators against runtime record writers + per-status path search to import panics",
          "every collection is exported and imported or is a derived index rebuilt on import; every GenesisState field is assigned on export and consumed on import; derived indices obey the runtime guards (ranked states, positive power, Active-only validator set, queue by voter status); the exported validator set is the recorded ValidatorSet with the validators' keys; every record the running chain builds with statically known field shapes passes the Validate method run on import; no named status value leads to a status-decided panic in code run on import; for every record the chain modifies field by field at run time, Validate (and the helpers it hands the record to) has no failure branch on a modified integer field that a storable value satisfies (interval evaluation against the guards dominating the stores); voter records are created only with an unused vote key (import refuses duplicates); the begin blocker cannot fail on the first block after import (no last commit); the order of the (not exported) voter queue is not copied into the persistent voter list of the group unless canonically ordered first; the exported block-hash window starts at the tip, descends by one and its loop bound does not exclude height 0; indices rebuilt by the locking genesis obey C13/R1,R3",
